@@ -25,6 +25,7 @@ import (
 	"go.minekube.com/gate/pkg/edition/java/netmc"
 	"go.minekube.com/gate/pkg/edition/java/proto/state"
 	"go.minekube.com/gate/pkg/edition/java/proto/state/states"
+	"go.minekube.com/gate/pkg/edition/java/proto/version"
 	"go.minekube.com/gate/pkg/edition/java/proxy/zzverif/vrt"
 	"go.minekube.com/gate/pkg/gate/proto"
 )
@@ -115,9 +116,15 @@ type caseSpec struct {
 	Level     int    `json:"level"`
 	Secret    string `json:"secret"` // hex, "" = no encryption; enabled before the first payload
 	Steps     []step `json:"steps"`
-	Chunking  string `json:"chunking"` // name, see chunkings()
-	Sizes     []int  `json:"sizes,omitempty"`
-	Cycle     []int  `json:"cycle,omitempty"`
+	// FlushAtEnd: the writer's buffer is flushed once after the last payload instead of after every payload
+	// (the proxy batches writes the same way: BufferPacket ... Flush)
+	FlushAtEnd bool `json:"flush_at_end,omitempty"`
+	// Via: "" = Writer.Write(payload); "packet" = Writer.WritePacket(&blobPacket{...}) (registered as id 0x55;
+	// goes through the packet registry and the pooled encode buffers), payload = 0x55 + data
+	Via      string `json:"via,omitempty"`
+	Chunking string `json:"chunking"` // name, see chunkings()
+	Sizes    []int  `json:"sizes,omitempty"`
+	Cycle    []int  `json:"cycle,omitempty"`
 }
 
 func (c *caseSpec) String() string {
@@ -136,7 +143,14 @@ func (c *caseSpec) String() string {
 	if c.Secret != "" {
 		enc = "aes:" + c.Secret[:4]
 	}
-	return fmt.Sprintf("%s thr=%d lvl=%d %s payloads=[%s] chunking=%s", c.Dir, c.Threshold, c.Level, enc, strings.Join(ss, ","), c.Chunking)
+	fl := ""
+	if c.FlushAtEnd {
+		fl = " flush-at-end"
+	}
+	if c.Via != "" {
+		fl += " via-WritePacket"
+	}
+	return fmt.Sprintf("%s thr=%d lvl=%d %s%s payloads=[%s] chunking=%s", c.Dir, c.Threshold, c.Level, enc, fl, strings.Join(ss, ","), c.Chunking)
 }
 
 func payload(size int, kind string) []byte {
@@ -168,8 +182,28 @@ func dirOf(s string) proto.Direction {
 	return proto.ClientBound
 }
 
-// an empty packet registry: every packet id is "unknown", the payload is handed through as is
-var emptyRegistry = state.NewRegistry(states.HandshakeState)
+// blobPacket is the only packet of the harness registry (id 0x55 in both directions): its data is the rest
+// of the payload. Payloads starting with another id are "unknown" and handed through as they are, so both
+// branches of the decoder's packet layer see traffic.
+type blobPacket struct{ Data []byte }
+
+func (b *blobPacket) Encode(_ *proto.PacketContext, wr io.Writer) error {
+	_, err := wr.Write(b.Data)
+	return err
+}
+func (b *blobPacket) Decode(_ *proto.PacketContext, rd io.Reader) (err error) {
+	b.Data, err = io.ReadAll(rd)
+	return err
+}
+
+const blobID = 0x55
+
+var harnessRegistry = func() *state.Registry {
+	reg := state.NewRegistry(states.HandshakeState)
+	reg.ServerBound.Register(&blobPacket{}, &state.PacketMapping{ID: blobID, Protocol: version.MinimumVersion.Protocol})
+	reg.ClientBound.Register(&blobPacket{}, &state.PacketMapping{ID: blobID, Protocol: version.MinimumVersion.Protocol})
+	return reg
+}()
 
 type written struct {
 	stream   []byte
@@ -183,7 +217,7 @@ type written struct {
 func encode(cs *caseSpec) (w written) {
 	conn := &recConn{}
 	wr := netmc.NewWriter(conn, dirOf(cs.Dir), time.Second, cs.Level, logr.Discard())
-	wr.SetState(emptyRegistry)
+	wr.SetState(harnessRegistry)
 	if cs.Secret != "" {
 		sec, _ := hex.DecodeString(cs.Secret)
 		if err := wr.EnableEncryption(sec); err != nil {
@@ -212,16 +246,27 @@ func encode(cs *caseSpec) (w written) {
 			}
 		}
 		p := payload(st.Size, st.Content)
-		if _, err := wr.Write(p); err != nil {
+		var err error
+		if cs.Via == "packet" {
+			p[0] = blobID
+			_, err = wr.WritePacket(&blobPacket{Data: p[1:]})
+		} else {
+			_, err = wr.Write(p)
+		}
+		if err != nil {
 			w.err, w.errAt = err, i
 			return
 		}
-		if err := wr.Flush(); err != nil {
-			w.err, w.errAt = err, i
-			return
+		if !cs.FlushAtEnd || i == len(cs.Steps)-1 {
+			if err := wr.Flush(); err != nil {
+				w.err, w.errAt = err, i
+				return
+			}
 		}
 		w.payloads = append(w.payloads, p)
-		w.ends = append(w.ends, conn.buf.Len())
+		if !cs.FlushAtEnd {
+			w.ends = append(w.ends, conn.buf.Len())
+		}
 	}
 	w.stream = conn.buf.Bytes()
 	return
@@ -240,7 +285,7 @@ type readBack struct {
 func decode(cs *caseSpec, w *written, sizes, cycle []int) (rb readBack) {
 	conn := &chunkConn{data: w.stream, sizes: sizes, cycle: cycle}
 	rd := netmc.NewReader(conn, dirOf(cs.Dir), time.Second, logr.Discard())
-	rd.SetState(emptyRegistry)
+	rd.SetState(harnessRegistry)
 	rb.panicked, rb.panicVal = vrt.Catch(func() {
 		if cs.Secret != "" {
 			sec, _ := hex.DecodeString(cs.Secret)
@@ -286,6 +331,10 @@ func decode(cs *caseSpec, w *written, sizes, cycle []int) (rb readBack) {
 				return
 			}
 			rb.payloads = append(rb.payloads, ctx.Payload)
+			if bp, ok := ctx.Packet.(*blobPacket); ok && len(ctx.Payload) > 0 && !bytes.Equal(bp.Data, ctx.Payload[1:]) {
+				rb.err = fmt.Errorf("harness: decoded packet data differs from the frame payload (%d vs %d bytes)", len(bp.Data), len(ctx.Payload)-1)
+				rb.payloads[len(rb.payloads)-1] = append([]byte{0xBA, 0xD0}, bp.Data...) // surfaces as payload-differs
+			}
 			advance()
 		}
 		rb.err = errors.New("harness: reader yields more packets than were written")
@@ -309,20 +358,23 @@ func short(b []byte) string {
 // frameOverCap parses the PLAINTEXT stream written for the case into announced frame lengths; used only to
 // tell "the writer produced a frame longer than a 21-bit length prefix can carry" from other failures.
 func frameOverCap(cs *caseSpec, w *written) (int, bool) {
-	prev := 0
-	for _, e := range w.ends {
-		f := w.stream[prev:e]
-		prev = e
+	// walk the length prefixes (the plaintext stream is a plain concatenation of frames)
+	pos := 0
+	for pos < len(w.stream) {
 		var v uint32
-		for i := 0; i < 5 && i < len(f); i++ {
-			v |= uint32(f[i]&0x7F) << (7 * uint(i))
-			if f[i]&0x80 == 0 {
+		n := 0
+		for i := 0; i < 5 && pos+i < len(w.stream); i++ {
+			b := w.stream[pos+i]
+			v |= uint32(b&0x7F) << (7 * uint(i))
+			n = i + 1
+			if b&0x80 == 0 {
 				break
 			}
 		}
 		if int(v) > maxFrame {
 			return int(v), true
 		}
+		pos += n + int(v)
 	}
 	return 0, false
 }
@@ -345,6 +397,7 @@ func (c *checker) evalEncoded(cs *caseSpec, only *caseSpec) {
 		}
 	}
 	nontrivial := len(want) > 0
+	c.classify(cs, &w)
 	// the writer/reader disagreement DESIGN 2a singles out: a frame the writer emits but no 21-bit reader accepts.
 	// With encryption on the ciphertext hides the prefix; the plaintext twin of the case reports it.
 	overKnown, overLen, over := false, 0, false
@@ -430,6 +483,67 @@ func (c *checker) evalEncoded(cs *caseSpec, only *caseSpec) {
 	if nontrivial {
 		r.Nontrivial(1)
 	}
+}
+
+// classify records which shapes the writer case exercises.
+func (c *checker) classify(cs *caseSpec, w *written) {
+	r := c.r
+	if cs.Secret != "" {
+		r.Class("writer:encrypted-from-start")
+	} else {
+		r.Class("writer:plaintext-start")
+	}
+	r.Class(fmt.Sprintf("writer:level=%d", cs.Level))
+	thr := cs.Threshold
+	for _, st := range cs.Steps {
+		if st.SetThreshold != nil {
+			r.Class(fmt.Sprintf("switch:threshold %s->%s", thrName(thr), thrName(*st.SetThreshold)))
+			thr = *st.SetThreshold
+		}
+		if st.Encrypt != "" {
+			r.Class("switch:encryption-enabled-mid-stream")
+		}
+		switch {
+		case st.Size == 0:
+			r.Class("payload:empty")
+		case thr < 0:
+			r.Class("payload:plain-frame(compression off)")
+		case st.Size < thr:
+			if st.Size == thr-1 {
+				r.Class("payload:size=threshold-1 (uncompressed, data length 0)")
+			} else {
+				r.Class("payload:below threshold (uncompressed, data length 0)")
+			}
+		case st.Size == thr:
+			r.Class("payload:size=threshold (compressed)")
+		default:
+			r.Class("payload:above threshold (compressed)/" + st.Content)
+		}
+		if st.Size >= 1<<21-1000 {
+			r.Class("payload:within 1000 bytes of 2^21-1/" + st.Content)
+		}
+	}
+	if cs.FlushAtEnd {
+		r.Class("writer:flush-at-end")
+	}
+	if cs.Via == "packet" {
+		r.Class("writer:via WritePacket (registry + pooled buffers)")
+	} else {
+		r.Class("writer:via Write(payload)")
+	}
+	if len(w.stream) > 0 && (len(w.stream) <= 24 || r.Thorough() && len(w.stream) <= 40) {
+		r.Class("stream: short (all <=3-read splits)")
+	}
+	if len(cs.Steps) > 1 && (cs.Steps[0].Size > 1000 || cs.Steps[0].SetThreshold != nil) {
+		r.Sample(cs.String())
+	}
+}
+
+func thrName(t int) string {
+	if t < 0 {
+		return "off"
+	}
+	return fmt.Sprint(t)
 }
 
 func hasEmpty(cs *caseSpec) bool {
